@@ -622,12 +622,33 @@ def c03(sc, V):
 
 # ------------------------------------------------------------------------------------------------ C02
 
+def _addressed(s):
+    """lower-cased names of the watchers a start / restart / reload request addresses; None = all of them (no name,
+    or a name / match value whose handling is not plain: the oracle then keeps to the coarse rule)"""
+    import fnmatch
+    props = s.props()
+    name = props.get("name")
+    if "name" not in props:
+        return None
+    if not isinstance(name, str):
+        return None
+    # start / stop / restart match by glob unless told otherwise; reload always looks the name up
+    match = "simple" if s.cmd() == "reload" else props.get("match", "glob")
+    names = [w["name"].lower() for w in s.before.watchers]
+    if match == "simple":
+        return set(n for n in names if n == name.lower())
+    if match == "glob" and "[" not in name:
+        return set(n for n in names if fnmatch.fnmatchcase(n, name.lower()))
+    return None
+
+
 def c02(sc, V):
     f = []
     pids_of = {}          # spawn-name -> [pids]
     nostop = set()
     rm_pending = []
     sock_seen = False
+    enabled_in_flight = None
     for s in V:
         if s.before.blocked:
             break
@@ -681,12 +702,31 @@ def c02(sc, V):
                     f.append({"sig": "survivor-after-rm", "step": s.n,
                               "msg": "rm of %s has completed but its workers %r are still running" % (evn, surv)})
             rm_pending = []
-        # stopped stays stopped
+        # stopped stays stopped — until a start / restart / reload that *addresses* the watcher (or the daemon's own
+        # start, a reload signal, an add): a request by name or pattern enables only the watchers it names
         enabling = s.kind() == "start" or (s.kind() == "sig" and s.op[1] == "reload") or \
             s.cmd() in ("start", "restart", "reload", "add", "reloadconfig") or \
             (s.kind() == "wake" and s.before.slot in STARTISH)
+        addressed = None                   # None = every watcher
+        if s.cmd() in ("start", "restart", "reload"):
+            addressed = _addressed(s)
+            if s.before.slot is None and s.snap.slot in STARTISH:
+                enabled_in_flight = addressed
+        elif s.kind() == "start" or (s.kind() == "sig" and s.op[1] == "reload") or s.cmd() in ("add", "reloadconfig"):
+            if s.before.slot is None and s.snap.slot in STARTISH:
+                enabled_in_flight = None
+        elif s.kind() == "wake" and s.before.slot in STARTISH:
+            addressed = enabled_in_flight
         if s.kind() == "sockev":
             sock_seen = bool(s.op[1])
+        if enabling and addressed is not None:
+            for l in s.lines:
+                if l[0] == "spawn":
+                    w = next((w for w in s.before.watchers if w["name"].replace(" ", "_") == l[2]), None)
+                    if w is not None and w["status"] == "stopped" and w["name"].lower() not in addressed:
+                        f.append({"sig": "spawn-for-stopped-watcher-not-addressed", "step": s.n,
+                                  "msg": "op %r spawned %d for the stopped watcher %s, which the request does not address (%s)"
+                                         % (s.op, l[1], l[2], sorted(addressed))})
         if not enabling:
             for l in s.lines:
                 if l[0] == "spawn":
